@@ -7,7 +7,7 @@ import sys
 import numpy as np
 
 
-def run(cfg, calls, *, n_jobs=1, verbose=False, folder=None, ctor_seed_shift=0, time_limit=180):
+def run(cfg, calls, *, n_jobs=1, verbose=False, folder=None, ctor_seed_shift=0, time_limit=600):
     """Return dict(history arrays, 'ret_p', 'ret_l' of the last call, 'error')."""
     from vlib import calgen as CG
     from vlib import gen as G
